@@ -233,6 +233,31 @@ def run(ctx):
             return set() if s == "-" else {(rev[int(a)], rev[int(b)]) for a, b in (x.split(">") for x in s.split(","))}
         real_t = {(a, b) for a, bs in r["taint_map"].items() for b in bs}
         real_c = {(a, b) for a, bs in r["constraint_map"].items() for b in bs}
+        # the closures of the real passes against reachability in the real single-step maps (what C09_closure says the model's loop returns)
+        def reach(edges, start, reflexive):
+            succ = collections.defaultdict(set)
+            for a, b in edges:
+                succ[a].add(b)
+            seen, todo = set(), ([start] if reflexive else list(succ[start]))
+            while todo:
+                x = todo.pop()
+                if x not in seen:
+                    seen.add(x)
+                    todo += succ[x]
+            return seen
+        closure_bad = []
+        for vn, got in r.get("taint_closure", {}).items():
+            stats["closures compared"] += 1
+            if set(got) != reach(real_t, vn, True):
+                closure_bad.append(("multi_step_taint", vn, sorted(got), sorted(reach(real_t, vn, True))))
+        for vn, got in r.get("constraint_closure", {}).items():
+            stats["closures compared"] += 1
+            if set(got) != reach(real_c, vn, False):
+                closure_bad.append(("multi_step_constraint", vn, sorted(got), sorted(reach(real_c, vn, False))))
+        if closure_bad:
+            l2 += 1
+            ctx.violation("closure-not-reachability " + closure_bad[0][0], {"stage": "L2 closure = reachability (C09_closure)", "source": src, "differences (function, start, returned, reachable)": closure_bad[:4],
+                                                                               "broken": "correspondence Taint.multiStepTaint / multiStepCons <-> multi_step_taint / multi_step_constraint"})
         model_claims = {}
         bad_fuel = False
         if d["claims"] != "-":
